@@ -16,6 +16,8 @@ import (
 	"os"
 	"strconv"
 	"strings"
+	"sync"
+	"time"
 
 	"github.com/KafScale/platform/pkg/metadata"
 	"github.com/KafScale/platform/pkg/protocol"
@@ -77,13 +79,20 @@ func c28ShowInts(l []int32) string {
 }
 // topic id text: decimal n = UUID with n in the low 8 bytes; "#name" = metadata.TopicIDForName(name)
 var c28Names = map[[16]byte]string{}
+var c28NamesMu sync.Mutex
+
+func c28Remember(id [16]byte, name string) {
+	c28NamesMu.Lock()
+	c28Names[id] = name
+	c28NamesMu.Unlock()
+}
 
 func c28ID(s string) [16]byte {
 	var id [16]byte
 	if strings.HasPrefix(s, "#") {
 		name := c28DecS(s[1:])
 		id = metadata.TopicIDForName(name)
-		c28Names[id] = name
+		c28Remember(id, name)
 		return id
 	}
 	binary.BigEndian.PutUint64(id[8:], uint64(c28Atoi(s)))
@@ -91,7 +100,10 @@ func c28ID(s string) [16]byte {
 }
 func c28ShowID(id [16]byte) string {
 	if binary.BigEndian.Uint64(id[:8]) != 0 {
-		if n, ok := c28Names[id]; ok {
+		c28NamesMu.Lock()
+		n, ok := c28Names[id]
+		c28NamesMu.Unlock()
+		if ok {
 			return "#" + c28EncS(n)
 		}
 		return fmt.Sprintf("x%x", id)
@@ -148,7 +160,7 @@ func c28ParseMeta(ws []string) (metadata.ClusterMetadata, bool) {
 				}
 			}
 			if mt.Topic != nil {
-				c28Names[metadata.TopicIDForName(*mt.Topic)] = *mt.Topic
+				c28Remember(metadata.TopicIDForName(*mt.Topic), *mt.Topic)
 			}
 			m.Topics = append(m.Topics, mt)
 		}
@@ -243,6 +255,78 @@ func c28DecodeCoord(v int16, data []byte) string {
 	return fmt.Sprintf("coord err=%d node=%d host=%s port=%d", resp.ErrorCode, resp.NodeID, c28EncS(resp.Host), resp.Port)
 }
 
+// c28Gate wraps the real store: while a `par` op runs, every store.Metadata call is held open
+// until `need` calls are in flight (or the harness releases the gate after a grace period), so
+// that the k Metadata requests of the op genuinely overlap inside handleMetadata.
+type c28Gate struct {
+	metadata.Store
+	mu       sync.Mutex
+	need     int
+	arrived  int
+	released chan struct{}
+}
+
+func (g *c28Gate) arm(need int) {
+	g.mu.Lock()
+	g.need, g.arrived, g.released = need, 0, make(chan struct{})
+	g.mu.Unlock()
+}
+func (g *c28Gate) release() {
+	g.mu.Lock()
+	if g.released != nil {
+		select {
+		case <-g.released:
+		default:
+			close(g.released)
+		}
+	}
+	g.need = 0
+	g.mu.Unlock()
+}
+func (g *c28Gate) arrivals() int { g.mu.Lock(); defer g.mu.Unlock(); return g.arrived }
+func (g *c28Gate) Metadata(ctx context.Context, topics []string) (*metadata.ClusterMetadata, error) {
+	g.mu.Lock()
+	var wait chan struct{}
+	if g.need > 0 {
+		g.arrived++
+		if g.arrived >= g.need {
+			close(g.released)
+			g.need = 0
+		} else {
+			wait = g.released
+		}
+	}
+	g.mu.Unlock()
+	if wait != nil {
+		<-wait
+	}
+	return g.Store.Metadata(ctx, topics)
+}
+
+// c28One runs one Metadata request through the real handleMetadata and decodes the reply.
+func c28One(ctx context.Context, p *proxy, v int16, spec string) (res string) {
+	defer func() {
+		if r := recover(); r != nil {
+			res = "panic"
+		}
+	}()
+	req, ok := c28Req(v, spec)
+	if !ok {
+		return "bad-op"
+	}
+	payload := c28Encode(req)
+	header, _, err := protocol.ParseRequestHeader(payload)
+	if err != nil {
+		return "bad-op"
+	}
+	resp, err := p.handleMetadata(ctx, header, payload)
+	if err != nil {
+		return "err"
+	}
+	s, _ := c28DecodeMeta(v, resp)
+	return s
+}
+
 func c28Main() {
 	w := bufio.NewWriter(os.Stdout)
 	defer w.Flush()
@@ -250,8 +334,9 @@ func c28Main() {
 		logger:      slog.New(slog.NewTextHandler(io.Discard, nil)),
 		brokerAddrs: make(map[string]string),
 		topicNames:  make(map[[16]byte]string),
-		store:       metadata.NewInMemoryStore(metadata.ClusterMetadata{}),
 	}
+	gate := &c28Gate{Store: metadata.NewInMemoryStore(metadata.ClusterMetadata{})}
+	p.store = gate
 	ctx := context.Background()
 	sc := bufio.NewScanner(os.Stdin)
 	sc.Buffer(make([]byte, 1<<20), 1<<26)
@@ -276,8 +361,42 @@ func c28Main() {
 				if !ok {
 					return "bad-op"
 				}
-				p.store = metadata.NewInMemoryStore(m)
+				gate.Store = metadata.NewInMemoryStore(m)
 				return "ok"
+			case f[0] == "par" && len(f) >= 2:
+				// par v:req v:req ...   k overlapping Metadata requests; request 0 is started first and is
+				// inside store.Metadata (held by the gate) when the others arrive.
+				k := len(f) - 1
+				outs := make([]string, k)
+				gate.arm(k)
+				var wg sync.WaitGroup
+				run := func(i int) {
+					defer wg.Done()
+					it := strings.SplitN(f[i+1], ":", 2)
+					if len(it) != 2 {
+						outs[i] = "bad-op"
+						return
+					}
+					outs[i] = c28One(ctx, p, int16(c28Atoi(it[0])), it[1])
+				}
+				wg.Add(1)
+				go run(0)
+				for t0 := time.Now(); gate.arrivals() < 1 && time.Since(t0) < time.Second; {
+					time.Sleep(50 * time.Microsecond)
+				}
+				for i := 1; i < k; i++ {
+					wg.Add(1)
+					go run(i)
+				}
+				// unchanged code: all k calls reach the store and the gate opens by itself.  If some
+				// request never reaches the store (it waits on another request's load), open the gate
+				// after a grace period so that the run terminates.
+				for t0 := time.Now(); gate.arrivals() < k && time.Since(t0) < 60*time.Millisecond; {
+					time.Sleep(100 * time.Microsecond)
+				}
+				gate.release()
+				wg.Wait()
+				return "par " + strings.Join(outs, " || ")
 			case (f[0] == "meta" || f[0] == "nrmeta") && len(f) == 3:
 				v := int16(c28Atoi(f[1]))
 				req, ok := c28Req(v, f[2])
